@@ -680,6 +680,9 @@ class ODataParser(Parser):
         exploded = self._explode_attr(attr)
         leaf_attr = exploded.pop()
         owner: Union[ast.Identifier, ast.Attribute] = ast.Identifier(exploded.pop(0))
+        if isinstance(attr.owner, ast.Identifier):
+            # The root of the path keeps its namespace:
+            owner = attr.owner
         for inter in exploded:
             owner = ast.Attribute(owner, inter)
 
